@@ -398,7 +398,7 @@ def glyf_component(ctx, repo):
     for fm, fl, c in W:
         if fm == ">HH" and not fl and "flags" in norm(c):
             continue  # the header (flags, glyphID)
-        match = [r for r in R if r[0] == fm and r[1] == fl and not (r[2] & fl)]
+        match = [r for r in R if r[0] == fm and r[1] == fl and not (r[2] & fl) and (r[1] or r[2])]
         ctx.ob("F4-comp", comp.where, f"pack {fm} with flags {sorted(fl)}", bool(match), "" if match else f"decoder reads {fm} under {[(sorted(r[1]), sorted(r[2])) for r in R if r[0] == fm]}")
     # narrow-range guards
     for n in walk_no_nested(comp.node):
